@@ -206,7 +206,7 @@ def _run(ctx, pid, thorough, rng, exe, tmp):
         what = "execution %s is not a behaviour of the specification: event %d %s refused%s" % (
             s.sid, k, json.dumps({x: ev[k][x] for x in ev[k] if x not in ("st", "cfg")})[:400] if k < len(ev) else "(end)",
             (" / invariant %s violated" % r.violation) if r.violation else "")
-        ctx.violation(what, {"kind": "trace", "module": "Trace_Track.tla", "cfg": "Trace_Track.cfg", "script": s.s.text(), "config": s.cfg,
+        ctx.violation(what, {"kind": "trace", "module": "Trace_Track.tla", "cfg": "Trace_Track.cfg", "script": s.s.text(), "config": s.cfg, "regen": s.meta(),
                              "events": ev, "refused_at": k})
     # C17 "no uninitialised field": the same kind of session on a plain -O0 build under Valgrind Memcheck; the driver
     # prints every field of every result, so reading an undefined field is reported at the print (auxiliary detector,
